@@ -209,4 +209,4 @@ for _p in ["C01", "C02", "C03", "C04", "C05", "C06", "C08", "C09", "C10", "C11",
     if _p not in CLAIMS:
         NOT_APPLICABLE[_p] = PENDING
 
-FIX_COMMITS: list[str] = ['66ece4b', 'ed076f6', '9a78ace', 'cf5abcd', '44e0064', '50d9a93', '83c3286', 'a1f053b', 'f5a50f1', 'f91da99', '5bc6ab8', '535dacf', '4fafdb0', 'f5c4825', 'b539edf', '6aa614c', '5bf1e4c', '7d40fdd', '06b897f', '456072f', '3fe121c', '76a2a6e', '3fca62d', '40b40f5', '26afd29']
+FIX_COMMITS: list[str] = ['66ece4b', 'ed076f6', '9a78ace', 'cf5abcd', '44e0064', '50d9a93', '83c3286', 'a1f053b', 'f5a50f1', 'f91da99', '5bc6ab8', '535dacf', '4fafdb0', 'f5c4825', 'b539edf', '6aa614c', '5bf1e4c', '7d40fdd', '06b897f', '456072f', '3fe121c', '76a2a6e', '3fca62d', '40b40f5', '26afd29', '1cd4dd0', 'a73d8de', 'ecd49ca', '80098d5', 'ed1bc9f', '8ac783d', '6ca6be5', '0e40cc3', '2b55b4e', 'caffa9a', 'a8e7280']
